@@ -311,7 +311,8 @@ def snapPost (eps sens lo hi : α) (noisy : α) : α :=
   let scale := 1 / snapEffEps eps bound
   let lam := Bits.nextPow2 scale
   let rounded := snapRound noisy lam
-  (truncate (-bound) bound rounded + bound) * sens + lo
+  -- HEAD (cd9e96d): scaling back can round just past the bounds, so `_truncate` to [lower, upper] once more
+  truncate lo hi ((truncate (-bound) bound rounded + bound) * sens + lo)
 
 def snapping (eps sens lo hi x : α) (bit bits52 : Nat) (words : List Nat) : Option (α × Nat) :=
   if feq sens 0 then some (truncate lo hi x, 0)
@@ -322,6 +323,24 @@ def snapping (eps sens lo hi x : α) (bit bits52 : Nat) (words : List Nat) : Opt
     match snapUniform bits52 words with
     | none => none
     | some (u, n) => some (snapPost eps sens lo hi (clamped + scale * snapLaplace bit u), n)
+
+/-! ### Bingham: the acceptance test of the Kent–Ganeiber–Mardia rejection sampler, as coded -/
+
+/-- `norm_const = exp(-(dims - b) / 2) * ((dims / b) ** (dims / 2))` -/
+def binghamNormConst (dims : Nat) (b : α) : α :=
+  Transc.exp (-((dims : α) - b) / 2) * Transc.pow ((dims : α) / b) ((dims : α) / 2)
+
+/-- `prob = exp(-u·A'·u) / norm_const / ((u·Ω·u) ** (dims / 2))` — AS CODED (bingham.py:147-149) -/
+def binghamAcceptCoded (uAu uOu normConst : α) (dims : Nat) : α :=
+  Transc.exp (-uAu) / normConst / Transc.pow uOu ((dims : α) / 2)
+
+/-- the ratio `f_Bing / (M · f_ACG)` of Kent–Ganeiber–Mardia with the angular-central-Gaussian envelope
+`f_ACG(u) = (u·Ω·u)^(-q/2)` — what the acceptance probability has to be for the output to be Bingham -/
+def binghamAcceptKGM (uAu uOu normConst : α) (dims : Nat) : α :=
+  Transc.exp (-uAu) / normConst * Transc.pow uOu ((dims : α) / 2)
+
+/-- the (unnormalised) envelope density of the proposal `N(0, Ω⁻¹)/‖·‖` -/
+def acgDensity (uOu : α) (dims : Nat) : α := Transc.pow uOu (-((dims : α) / 2))
 
 end
 end Smp
